@@ -1057,7 +1057,8 @@ def _mk_fqp_inv(impl, curve, deg):
         elif tier == "quick":
             supports = [(i,) for i in range(7)]
         else:
-            supports = [(i,) for i in range(10)] + [(0, 6)]
+            # reference classes (FQ objects per coefficient) decide {8}, {9}, {0,6} only partly within the budget (measured): optimized only
+            supports = [(i,) for i in range(8)] + ([(8,), (9,), (0, 6)] if impl == "opt" else [])
         for i, c, K, M in fqp_classes(deg):
             if i == impl and c == curve:
                 _check_fqp_inv(rep, i, c, deg, K, M, supports)
@@ -1069,7 +1070,7 @@ for _impl in ("ref", "opt"):
         for _deg in (2, 12):
             obligation("C08", "fqp_inv_%s_%s_fq%d" % (_impl, _curve, _deg), timeout=400,
                        bound=("FQ2: all elements (both coefficients symbolic, every zero pattern)" if _deg == 2 else
-                              "FQ12: coefficient supports {i}, i = 0..6 (quick), i = 0..9 and {0,6} (thorough); supports {10}, {11}, other pairs and denser supports exceed the time/memory budget at the real primes (rational functions without gcd cancellation) and are claimed only in the small-field tier; real prime; generic path + zeroed support variables"))(
+                              "FQ12: coefficient supports {i}, i = 0..6 (quick), i = 0..7 (thorough; optimized classes also {8}, {9}, {0,6}); supports {10}, {11}, other pairs and denser supports exceed the time/memory budget at the real primes (rational functions without gcd cancellation) and are claimed only in the small-field tier; real prime; generic path + zeroed support variables"))(
                 _mk_fqp_inv(_impl, _curve, _deg))
 
 
@@ -1388,7 +1389,7 @@ def _mk_small_fq2(impl, q, k):
 
 
 for _impl in ("ref", "opt"):
-    for _q, _k, _tier in ((3, 0, "quick"), (3, 1, "quick"), (7, 0, "thorough"), (7, 1, "thorough"), (11, 0, "thorough")):
+    for _q, _k, _tier in ((3, 0, "quick"), (3, 1, "quick"), (7, 0, "thorough"), (7, 1, "thorough")):      # q = 11: associativity / distributivity undecided after 23 min (measured), not claimed
         obligation("C08", "small_fq2_%s_q%d_m%d" % (_impl, _q, _k), timeout=900, tier=_tier,
                    bound="every element/pair/triple of GF(%d^2) with modulus %s; real inv (Euclid with degree branches), no stubs; exact 24-bit arithmetic"
                          % (_q, "x^2+1" if _k == 0 else "the first irreducible x^2+bx+c with b != 0"))(_mk_small_fq2(_impl, _q, _k))
